@@ -165,11 +165,9 @@ H("C16", "blp", _BE, "thorough", "C16.e JPEG with the complete chain (2 levels),
 H("C16", "blp", _BE, "thorough", "C16.e BLP0 palettised with the complete chain (2 levels) in external files", ["c16e_blp0_raw1_2x2_a4_mips"],
   ["types::header::BlpHeader::mipmaps_count", "encode::{encode_header,encode_raw1,encode_raw}", "parser::direct::blp0::{parse_blp0,parse_raw1_image}"],
   "levels 4+2 and 1+1 symbolic bytes", "BLP0 2x2 alpha 4, has_mipmaps = 1", stubs=[FMT_BLP, LOG2], timeout=2400)
-H("C16", "blp", _BE, "quick", "C16.e witness: the structure image_to_blp returns for a 4x1 image with mipmaps (one level; generate_mipmaps stops when ONE side is 1) "
-  "is encoded without error and parsed back with three levels", ["c16e_jpeg_blp1_4x1_converter_chain_witness"],
-  ["encode::{encode_header,encode_jpeg}", "parser::jpeg::parse_jpeg_content", "types::header::BlpHeader::mipmaps_count"],
-  "concrete shape 4x1 BLP1 JPEG, has_mipmaps = 1, one level of 5 symbolic bytes (shape of the converter's output, from a native run)", "one shape",
-  stubs=[FMT_BLP, LOG2], expect="witness:KF-C16-mipchain-nonsquare", timeout=900)
+# c16e_jpeg_blp1_4x1_converter_chain_witness is no longer registered: it feeds the encoder a structure copied from the
+# (then defective) converter's output rather than running the converter, so it cannot pass once
+# generate_mipmaps is fixed (KF-C16-mipchain-nonsquare, fixed in /repo; convert/ itself cannot be compiled by Kani).
 H("C16", "blp", _BE, "quick", "canary", ["c16_encode_canary"], ["encode::encode_header"], "vacuity twin", "-", expect="canary")
 H("C16", "blp", _BE, "thorough", "C16.b header encode->parse, BLP1 (old flags + internal locator)", ["c16b_header_roundtrip_blp1"], _hdr_fns,
   "content tag, alpha depth, extra, has_mipmaps, width, height, 16 offsets and 16 sizes symbolic", "version BLP1; width, height <= 65535",
